@@ -147,6 +147,13 @@ func init() {
 	}
 	registerFixture(fixtureCheck{Group: "ta", Pkg: "ta/bad", Run: ta, Want: []string{"ta/bad.Unchecked:*bad.T#1", "ta/bad.WrongVar:*bad.T#1", "ta/bad.OtherValue:*bad.T#1"}})
 	registerFixture(fixtureCheck{Group: "ta", Pkg: "ta/good", Run: ta})
+	ro := func(c *Ctx, r *Result, key string) {
+		g, fs := c.fixGraph(key)
+		runRO(c, r, "RO", fixFuncs(c, g, fs), nil)
+		runNILTYPE(c, r, "NILTYPE", fixFuncs(c, g, fs), nil)
+	}
+	registerFixture(fixtureCheck{Group: "ro", Pkg: "ro/bad", Run: ro, Want: []string{"ro/bad.Walk:Field#1", "ro/bad.Get:FieldByName#1", "ro/bad.Kind:TypeOf#1"}})
+	registerFixture(fixtureCheck{Group: "ro", Pkg: "ro/good", Run: ro})
 	registerFixture(fixtureCheck{Group: "lock", Pkg: "lock/bad", Run: lock, Want: []string{"lock/bad.Register:registry-access#1", "lock/bad.Compile:registry-noescape#1", "lock/bad.Leak:mu-exit"}})
 	registerFixture(fixtureCheck{Group: "lock", Pkg: "lock/good", Run: lock})
 }
